@@ -42,16 +42,16 @@ type ReadRec struct {
 }
 
 type Seam struct {
-	Run     *Run  // nil: always the default answer
-	Menu    []int // answers offered at each read (index 0 must be AnsA)
-	Horizon int   // after this many reads only the default answer is served (cut-off, not a violation)
-	Cut     bool
-	Log     []ReadRec
-	Stream  uint64 // stream id: different ids give unrelated pattern-A streams
+	Run      *Run  // nil: always the default answer
+	Menu     []int // answers offered at each read (index 0 must be AnsA)
+	Horizon  int   // after this many reads only the default answer is served (cut-off, not a violation)
+	Cut      bool
+	Log      []ReadRec
+	Stream   uint64 // stream id: different ids give unrelated pattern-A streams
 	StreamOf func() uint64
-	Default  int // the answer served when no explorer is attached (AnsA unless set)
+	Default  int    // the answer served when no explorer is attached (AnsA unless set)
 	Before   func() // called at the start of every Read (scheduling point of the cooperative scheduler)
-	pos     map[uint64]uint64
+	pos      map[uint64]uint64
 }
 
 func NewSeam(run *Run, menu []int) *Seam {
